@@ -51,7 +51,7 @@ Fixpoint admits (i : e5item) (t : ty) {struct i} : bool :=
   | _, TScal k count => scalar_admits k count i
   | _, TDyn allowed count =>
     match kind_of_item i with
-    | Some k => allowed_has allowed (DScal k) && negb (skind_eqb k KJis) && scalar_admits k count i
+    | Some k => allowed_has allowed (DScal k) && scalar_admits k count i
     | None => false
     end
   | _, _ => false
